@@ -885,7 +885,7 @@ def distinct(seq):
     return out
 
 
-def py_run(integ, sysm, y0, tv, generic, ev=None, direction=0):
+def py_run(integ, sysm, y0, tv, generic, ev=None, direction=0, ev_options=None):
     """run the real `integrate` with python-mode kernels; -> (solution, distinct rhs queries, event queries)"""
     from hiten.algorithms.types.configs import EventConfig
     with PyMode() as pm:
@@ -895,6 +895,8 @@ def py_run(integ, sysm, y0, tv, generic, ev=None, direction=0):
         if ev is not None:
             integ._compile_event_function = lambda f: f
             kw = {"event_fn": _py_event(pm, ev), "event_cfg": EventConfig(direction=direction, terminal=True)}
+            if ev_options is not None:
+                kw["event_options"] = ev_options
         try:
             with np.errstate(all="ignore"):
                 sol = integ.integrate(system, y0.copy(), tv.copy(), **kw)
@@ -952,6 +954,21 @@ def ev_clock(t, y):
 
 
 EVENTS = {"q1": ev_q1, "p2": ev_p2, "never": ev_none, "clock": ev_clock}
+
+
+def event_of(name):
+    """event function of a configuration name; a suffix selects non-default location tolerances (xtol != gtol):
+    `@x` = loose in time / tight in value, `@g` = tight in time / loose in value"""
+    return EVENTS[name.split("@")[0]]
+
+
+def event_options_of(name):
+    from hiten.algorithms.types.options import EventOptions
+    if "@x" in name:
+        return EventOptions(xtol=1e-4, gtol=1e-14)
+    if "@g" in name:
+        return EventOptions(xtol=1e-14, gtol=1e-4)
+    return None
 ROUND = 1e-9     # two executions of the same algorithm that differ only by re-association of float operations
 
 
@@ -969,6 +986,8 @@ def configs(ctx):
         out.append(("fixed", p, {}, "uneven", None, 0))
         out.append(("fixed", p, {}, "uneven", "q1", 0))
         out.append(("fixed", p, {}, "asc", "clock", 1))
+        out.append(("fixed", p, {}, "asc", "q1@x", 0))
+        out.append(("fixed", p, {}, "asc", "q1@g", 0))
     for p in (5, 8):
         for tol in tols:
             kw = {"rtol": tol, "atol": tol}
@@ -980,6 +999,8 @@ def configs(ctx):
         # options that must not be mixed up when they are handed to the twin (rtol/atol far apart, no step cap)
         out.append(("adaptive", p, {"rtol": 1e-6, "atol": 1e-11}, "asc", None, 0))
         out.append(("adaptive", p, {"rtol": 1e-6, "atol": 1e-11}, "asc", "q1", 0))
+        out.append(("adaptive", p, {"rtol": 1e-9, "atol": 1e-9}, "asc", "q1@x", 0))
+        out.append(("adaptive", p, {"rtol": 1e-9, "atol": 1e-9}, "asc", "q1@g", 0))
         out.append(("adaptive", p, {"rtol": 1e-11, "atol": 1e-6}, "uneven", None, 0))
         out.append(("adaptive", p, {"rtol": 1e-7, "atol": 1e-7, "min_step": 1e-3}, "asc", None, 0))
     return out
@@ -1028,10 +1049,11 @@ def transcripts(ctx):
         for cfg in cfgs:
             family, order, kw, grid, evn, dr = cfg
             tv = make_grid(grid)
-            ev = EVENTS[evn] if evn else None
+            ev = event_of(evn) if evn else None
             try:
-                sg, qg, eg = py_run(make_integ(family, order, kw), sysm, y0, tv, True, ev, dr)
-                sh, qh, eh = py_run(make_integ(family, order, kw), sysm, y0, tv, False, ev, dr)
+                eo = event_options_of(evn) if evn else None
+                sg, qg, eg = py_run(make_integ(family, order, kw), sysm, y0, tv, True, ev, dr, eo)
+                sh, qh, eh = py_run(make_integ(family, order, kw), sysm, y0, tv, False, ev, dr, eo)
             except Exception as ex:  # noqa: BLE001
                 bad.append("%s: python-mode execution failed: %s: %s" % (cfg_key(cfg), type(ex).__name__, str(ex)[:200]))
                 continue
@@ -1066,6 +1088,8 @@ def transcripts(ctx):
                 try:
                     from hiten.algorithms.types.configs import EventConfig
                     kwc = {"event_fn": ev, "event_cfg": EventConfig(direction=dr, terminal=True)} if ev else {}
+                    if ev and eo is not None:
+                        kwc["event_options"] = eo
                     sc = make_integ(family, order, kw).integrate(sysm, y0.copy(), tv.copy(), **kwc)
                     e = worst_rel(sol_arrays(sc), ah)
                     stats["py_vs_compiled_worst"] = max(stats["py_vs_compiled_worst"], e)
@@ -1139,7 +1163,7 @@ def compiled_event(name):
     import numba
     from numba import types
     if name not in _EV_C:
-        _EV_C[name] = numba.njit(types.float64(types.float64, types.float64[:]), cache=False)(EVENTS[name])
+        _EV_C[name] = numba.njit(types.float64(types.float64, types.float64[:]), cache=False)(event_of(name))
     return _EV_C[name]
 
 
@@ -1152,6 +1176,8 @@ def run_cfg(cfg, system, y0):
     family, order, kw, grid, evn, dr = cfg
     tv = make_grid(grid)
     kwc = {"event_fn": compiled_event(evn), "event_cfg": EventConfig(direction=dr, terminal=True)} if evn else {}
+    if evn and event_options_of(evn) is not None:
+        kwc["event_options"] = event_options_of(evn)
     with np.errstate(all="ignore"):
         return make_integ(family, order, kw).integrate(system, y0.copy(), tv.copy(), **kwc)
 
@@ -1381,7 +1407,7 @@ def symplectic_pieces(ctx):
         if rel_diff(a, c) > 1e-10:
             bad.append(("symplectic%d:python-vs-compiled" % order, hd, deg, y0, a, c))
         for evn, dr in (("q1", 0), ("p2", -1)):
-            ev = EVENTS[evn]
+            ev = event_of(evn)
             ra = pyclone(sy._integrate_symplectic_until_event, {})(y0.copy(), tv, jac, clmo, order, ev, dr, 1e-12, 1e-12, 20.0)
             rb = pyclone(sy._integrate_symplectic_until_event, dict(over))(y0.copy(), tv, jac, clmo, order, ev, dr, 1e-12, 1e-12, 20.0)
             rc = sy._integrate_symplectic_until_event(y0.copy(), tv, jac, clmo, order, compiled_event(evn), dr, 1e-12, 1e-12, 20.0)
